@@ -4,3 +4,5 @@
 
 #[cfg(kani)]
 mod c27;
+#[cfg(kani)]
+mod c35;
